@@ -15,6 +15,7 @@ import DarsiaModel.Transport
 import DarsiaGen.TransportDispatch
 import DarsiaProofs.Transport
 import DarsiaProofs.TransportQuad
+import DarsiaProofs.TransportEmd
 import DarsiaProps.C15
 namespace Darsia.C05
 open Darsia Darsia.Quad
@@ -213,6 +214,62 @@ theorem emd_single_move (value dy dx : Rat) (drow dcol : Int) (s : Rat) :
     emdSingleSq value dy dx (-drow) (-dcol) = emdSingleSq value dy dx drow dcol ∧
     emdSingleSq (s * value) dy dx drow dcol = s ^ 2 * emdSingleSq value dy dx drow dcol := by
   refine ⟨?_, ?_, ?_⟩ <;> simp only [emdSingleSq] <;> push_cast <;> ring
+
+/-! ### OpenCV back-end: `EMD.__call__` around an abstract `cv2.EMD` satisfying the transport-metric contract `IsW1` -/
+
+/-- single-cell move: `EMD` returns mass × Euclidean distance in physical units (mass = value · cell volume, positions
+`(col·dx, row·dy)`); uses only the point-mass clause of the contract -/
+theorem emd_call_single_move {n : Nat} {pos : Nat → Rat × Rat} {E} (hE : IsW1 n pos E) (vol v : Rat) (i j : Nat)
+    (hi : i < n) (hj : j < n) (hv : v ≠ 0) :
+    emdCall E n vol (fun k => if k = i then v else 0) (fun k => if k = j then v else 0) =
+      dist2 (pos i) (pos j) * ((v * vol : Rat) : ℝ) := by
+  unfold emdCall
+  rw [emdWeight_single n i v hi hv, emdWeight_single n j v hj hv, hE.point i j hi hj]
+  have : emdIntegral n (fun k => if k = i then v else 0) = v := by
+    unfold emdIntegral; exact sumTo_ite_eq n i (fun _ => v) hi
+  rw [this]
+
+/-- symmetry for images of equal total sum (what `_compatibility_check` asserts) -/
+theorem emd_call_symm {n : Nat} {pos : Nat → Rat × Rat} {E} (hE : IsW1 n pos E) (vol : Rat) (a b : Nat → Rat)
+    (hab : emdIntegral n a = emdIntegral n b) : emdCall E n vol a b = emdCall E n vol b a := by
+  unfold emdCall; rw [hE.symm, hab]
+
+/-- linear scaling in the masses: the normalised signatures do not change, the rescaling factor does (no assumption on `E`) -/
+theorem emd_call_smul (E : (Nat → Rat) → (Nat → Rat) → ℝ) (n : Nat) (vol : Rat) (a b : Nat → Rat) (s : Rat) (hs : s ≠ 0) :
+    emdCall E n vol (fun k => s * a k) (fun k => s * b k) = ((s : Rat) : ℝ) * emdCall E n vol a b := by
+  unfold emdCall
+  rw [emdWeight_smul n a s hs, emdWeight_smul n b s hs]
+  have : emdIntegral n (fun k => s * a k) = s * emdIntegral n a := by unfold emdIntegral; exact sumTo_mul_left n s a
+  rw [this]; push_cast; ring
+
+/-- first-moment bound for non-negative images of equal positive sum: displacement of the first moment (positions
+`(col·dx, row·dy)`) × cell volume ≤ `EMD` -/
+theorem emd_call_first_moment {n : Nat} {pos : Nat → Rat × Rat} {E} (hE : IsW1 n pos E) (vol : Rat) (a b : Nat → Rat)
+    (hv : 0 ≤ vol) (ha : ∀ k, k < n → 0 ≤ a k) (hb : ∀ k, k < n → 0 ≤ b k) (hI : 0 < emdIntegral n a)
+    (hab : emdIntegral n a = emdIntegral n b) :
+    Real.sqrt (((momX n pos a - momX n pos b : Rat) : ℝ) ^ 2 + ((momY n pos a - momY n pos b : Rat) : ℝ) ^ 2) *
+        ((vol : Rat) : ℝ) ≤ emdCall E n vol a b :=
+  emdCall_first_moment hE vol a b hv ha hb hI hab
+
+/-- the signature the code builds (`_img_to_sig` of the normalised image): one row per pixel in row-major order, weight =
+pixel / sum, then `col·del_x`, `row·del_y` with `del_y, del_x = voxel_size`; weights sum to 1 for a non-zero total -/
+theorem sig_construction (R C : Nat) (dy dx : Rat) (a : Nat → Rat) (hI : emdIntegral (R * C) a ≠ 0) :
+    (sigOf R C dy dx a).length = R * C ∧
+    (∀ r c, r < R → c < C → (sigOf R C dy dx a).getD (r * C + c) (0, 0, 0) =
+      (a (r * C + c) / emdIntegral (R * C) a, (c : Rat) * dx, (r : Rat) * dy)) ∧
+    sumTo (R * C) (emdWeight (R * C) a) = 1 := by
+  refine ⟨by simp [sigOf], fun r c hr hc => ?_, ?_⟩
+  · have hk : r * C + c < R * C := by
+      calc r * C + c < r * C + C := by omega
+        _ = (r + 1) * C := by ring
+        _ ≤ R * C := Nat.mul_le_mul_right _ hr
+    have h1 : (r * C + c) % C = c := by rw [Nat.mul_comm, Nat.mul_add_mod]; exact Nat.mod_eq_of_lt hc
+    have h2 : (r * C + c) / C = r := by
+      rw [Nat.mul_comm, Nat.mul_add_div (by omega)]; simp [Nat.div_eq_of_lt hc]
+    simp only [sigOf, List.getD_eq_getElem?_getD, List.getElem?_map, List.getElem?_range hk, Option.map_some,
+      Option.getD_some, emdWeight, emdPos, h1, h2]
+  · show sumTo (R * C) (fun k => a k / emdIntegral (R * C) a) = 1
+    rw [sumTo_div]; exact div_self hI
 
 /-! ### first-moment bound (real quadrature nodes, Euclidean norm) -/
 
